@@ -11,6 +11,7 @@ import MayVerif.Proof.Queue.Mpsc.P_nLink
 import MayVerif.Proof.Queue.Mpsc.P_nRet
 import MayVerif.Proof.Queue.Mpsc.P_pLoad
 import MayVerif.Proof.Queue.Mpsc.P_pCas
+import MayVerif.Proof.Queue.Mpsc.P_pWrite
 import MayVerif.Proof.Queue.Mpsc.P_pSet
 import MayVerif.Proof.Queue.Mpsc.P_pAlloc
 import MayVerif.Proof.Queue.Mpsc.P_pWait
@@ -21,6 +22,7 @@ import MayVerif.Proof.Queue.Mpsc.P_oIdx
 import MayVerif.Proof.Queue.Mpsc.P_oTry
 import MayVerif.Proof.Queue.Mpsc.P_oTail
 import MayVerif.Proof.Queue.Mpsc.P_oSpin
+import MayVerif.Proof.Queue.Mpsc.P_oRead
 import MayVerif.Proof.Queue.Mpsc.P_oStore
 import MayVerif.Proof.Queue.Mpsc.P_rFree
 import MayVerif.Proof.Queue.Mpsc.P_rNext
@@ -28,13 +30,16 @@ import MayVerif.Proof.Queue.Mpsc.P_rHead
 import MayVerif.Proof.Queue.Mpsc.P_bIdx
 import MayVerif.Proof.Queue.Mpsc.P_bBlk
 import MayVerif.Proof.Queue.Mpsc.P_bFast
+import MayVerif.Proof.Queue.Mpsc.P_bFastRd
 import MayVerif.Proof.Queue.Mpsc.P_bStore
 import MayVerif.Proof.Queue.Mpsc.P_bTail
 import MayVerif.Proof.Queue.Mpsc.P_bCopy
+import MayVerif.Proof.Queue.Mpsc.P_bCopyRd
 import MayVerif.Proof.Queue.Mpsc.P_kIdx
 import MayVerif.Proof.Queue.Mpsc.P_kTail
 import MayVerif.Proof.Queue.Mpsc.P_kBlk
 import MayVerif.Proof.Queue.Mpsc.P_kSpin
+import MayVerif.Proof.Queue.Mpsc.P_kRead
 import MayVerif.Proof.Queue.Mpsc.P_lIdx
 import MayVerif.Proof.Queue.Mpsc.P_lTail
 import MayVerif.Proof.Queue.Mpsc.P_dHead
@@ -60,6 +65,7 @@ theorem inv_step (s s' : St) (t : Tid) (e : Env) (h : Inv s) (hs : step s t e = 
   | nRet => exact p_nRet n sh pcs apcs t e hlt hq h hpc sh' pc' aa hts
   | pLoad v => exact p_pLoad n sh pcs apcs t e v hlt hq h hpc sh' pc' aa hts
   | pCas v w => exact p_pCas n sh pcs apcs t e v w hlt hq h hpc sh' pc' aa hts
+  | pWrite v b i => exact p_pWrite n sh pcs apcs t e v b i hlt hq h hpc sh' pc' aa hts
   | pSet v b i => exact p_pSet n sh pcs apcs t e v b i hlt hq h hpc sh' pc' aa hts
   | pAlloc b => exact p_pAlloc n sh pcs apcs t e b hlt hq h hpc sh' pc' aa hts
   | pWait b nn => exact p_pWait n sh pcs apcs t e b nn hlt hq h hpc sh' pc' aa hts
@@ -70,6 +76,7 @@ theorem inv_step (s s' : St) (t : Tid) (e : Env) (h : Inv s) (hs : step s t e = 
   | oTry d hb pi => exact p_oTry n sh pcs apcs t e d hb pi hlt hq h hpc sh' pc' aa hts
   | oTail d hb pi => exact p_oTail n sh pcs apcs t e d hb pi hlt hq h hpc sh' pc' aa hts
   | oSpin d hb pi => exact p_oSpin n sh pcs apcs t e d hb pi hlt hq h hpc sh' pc' aa hts
+  | oRead d sp hb pi => exact p_oRead n sh pcs apcs t e d sp hb pi hlt hq h hpc sh' pc' aa hts
   | oStore d hb pi v => exact p_oStore n sh pcs apcs t e d hb pi v hlt hq h hpc sh' pc' aa hts
   | rFree hb k => exact p_rFree n sh pcs apcs t e hb k hlt hq h hpc sh' pc' aa hts
   | rNext hb k => exact p_rNext n sh pcs apcs t e hb k hlt hq h hpc sh' pc' aa hts
@@ -77,13 +84,16 @@ theorem inv_step (s s' : St) (t : Tid) (e : Env) (h : Inv s) (hs : step s t e = 
   | bIdx => exact p_bIdx n sh pcs apcs t e hlt hq h hpc sh' pc' aa hts
   | bBlk pi => exact p_bBlk n sh pcs apcs t e pi hlt hq h hpc sh' pc' aa hts
   | bFast hb ci acc => exact p_bFast n sh pcs apcs t e hb ci acc hlt hq h hpc sh' pc' aa hts
+  | bFastRd hb ci acc => exact p_bFastRd n sh pcs apcs t e hb ci acc hlt hq h hpc sh' pc' aa hts
   | bStore hb ni acc => exact p_bStore n sh pcs apcs t e hb ni acc hlt hq h hpc sh' pc' aa hts
   | bTail hb pi => exact p_bTail n sh pcs apcs t e hb pi hlt hq h hpc sh' pc' aa hts
   | bCopy hb ci ce acc => exact p_bCopy n sh pcs apcs t e hb ci ce acc hlt hq h hpc sh' pc' aa hts
+  | bCopyRd hb ci ce acc => exact p_bCopyRd n sh pcs apcs t e hb ci ce acc hlt hq h hpc sh' pc' aa hts
   | kIdx => exact p_kIdx n sh pcs apcs t e hlt hq h hpc sh' pc' aa hts
   | kTail pi => exact p_kTail n sh pcs apcs t e pi hlt hq h hpc sh' pc' aa hts
   | kBlk pi => exact p_kBlk n sh pcs apcs t e pi hlt hq h hpc sh' pc' aa hts
   | kSpin hb pi => exact p_kSpin n sh pcs apcs t e hb pi hlt hq h hpc sh' pc' aa hts
+  | kRead hb pi => exact p_kRead n sh pcs apcs t e hb pi hlt hq h hpc sh' pc' aa hts
   | lIdx eb => exact p_lIdx n sh pcs apcs t e eb hlt hq h hpc sh' pc' aa hts
   | lTail eb pi => exact p_lTail n sh pcs apcs t e eb pi hlt hq h hpc sh' pc' aa hts
   | dHead => exact p_dHead n sh pcs apcs t e hlt hq h hpc sh' pc' aa hts
@@ -147,6 +157,48 @@ theorem wait_free_spins (s : St) (h : Inv s) :
     have h5 := unl_of (s.pcs (clo s.sh))
     grind
 
+/-- the block of a slot-access pc -/
+def accBlk : Pc → Option Bid
+  | .pWrite _ b _ | .oRead _ _ b _ | .bFastRd b _ _ | .bCopyRd b _ _ _ | .kRead b _ => some b
+  | _ => none
+
+/-- every consumer slot read is from the current head block, which is allocated and not (yet) in `old_block`;
+    every slot write goes to an allocated block -/
+theorem read_before_retire (s : St) (h : Inv s) :
+    (∀ (hb : Bid), readBlk (s.pcs 0) = some hb → hb = s.sh.headBlk ∧ s.sh.live hb = true ∧ s.sh.old ≠ some hb) ∧
+    (∀ (t : Tid) (v : Nat) (b : Bid) (i : Nat), s.pcs t = .pWrite v b i → s.sh.live b = true) := by
+  constructor
+  · intro hb hr
+    have key : locHb (s.pcs 0) = some hb ∧ s.pcs 0 ≠ .idle ∧ isNew (s.pcs 0) = false ∧ dropDone (s.pcs 0) = false ∧
+        atNextHead (s.pcs 0) = false := by
+      generalize s.pcs 0 = pc at hr
+      cases pc <;> simp_all [readBlk, locHb, isNew, dropDone, atNextHead]
+    have hc := h.crt 0 key.2.1 key.2.2.1
+    have h1 := h.lHb hb key.1
+    subst h1
+    have h2 := (h.hbT hc).1
+    have h3 := h.nbv hc
+    have h4 := (h.liveR s.sh.headBlk hc (Or.inr key.2.2.2.1)).mpr
+    have h5 := h.oldR1 hc (Or.inr key.2.2.2.1) key.2.2.2.2
+    refine ⟨rfl, h4 ⟨by omega, by omega⟩, ?_⟩
+    rw [h5]
+    split <;> simp <;> omega
+  · intro t v b i hp
+    have hw : wrSlot (s.pcs t) = some (v, b, i) := by rw [hp]; rfl
+    have hc := h.crt t (by rw [hp]; simp) (by rw [hp]; rfl)
+    have h1 := h.psetB t v b i hw
+    have h2 := (h.pset t v b i hw).1
+    have h3 := anh_of (s.pcs 0)
+    have hd : s.sh.alive = true ∨ dropDone (s.pcs 0) = false := by
+      by_cases ht : t = 0
+      · subst ht; right; rw [hp]; rfl
+      · left
+        cases ha : s.sh.alive with
+        | true => rfl
+        | false => have := h.drp t hc ha ht; rw [hp] at this; cases this
+    refine (h.liveR b hc hd).mpr ⟨?_, h2⟩
+    split <;> omega
+
 theorem reach_refines_A (B n : Nat) (hB : 0 < B) (l : List (Tid × Env)) : (run (init B n) l).sh.simBad = false :=
   (inv_reach B n hB l).noSimBad
 
@@ -170,5 +222,11 @@ theorem reach_wait_free_spins (B n : Nat) (hB : 0 < B) (l : List (Tid × Env)) :
     (∀ (t : Tid) (b nn : Bid), (run (init B n) l).pcs t = .pWait b nn → (run (init B n) l).sh.next b = some (b + 1)) ∧
     (∀ (t : Tid) (hb : Bid) (k : K), (run (init B n) l).pcs t = .rNext hb k → (run (init B n) l).sh.next hb = some (hb + 1)) :=
   wait_free_spins _ (inv_reach B n hB l)
+
+theorem reach_read_before_retire (B n : Nat) (hB : 0 < B) (l : List (Tid × Env)) :
+    (∀ (hb : Bid), readBlk ((run (init B n) l).pcs 0) = some hb →
+        hb = (run (init B n) l).sh.headBlk ∧ (run (init B n) l).sh.live hb = true ∧ (run (init B n) l).sh.old ≠ some hb) ∧
+    (∀ (t : Tid) (v : Nat) (b : Bid) (i : Nat), (run (init B n) l).pcs t = .pWrite v b i → (run (init B n) l).sh.live b = true) :=
+  read_before_retire _ (inv_reach B n hB l)
 
 end MayVerif.Mpsc
